@@ -56,7 +56,7 @@ pub const EXTREMES: [(&str, bool); 12] = [
 ];
 
 /// ways of spoiling a valid `YYYY-MM-DDThh:mm:ss[.f](Z|+hh:mm)` string; every result is definitely not RFC 3339
-pub const NEAR_MISS: usize = 21;
+pub const NEAR_MISS: usize = 29;
 pub fn spoil(valid: &str, kind: u8) -> String {
   let date = &valid[..10];
   let time = &valid[11..19];
@@ -82,6 +82,15 @@ pub fn spoil(valid: &str, kind: u8) -> String {
     17 => format!("{date}T{time}+24:00"),
     18 => format!("{}-13-01T{time}{zone}", &date[..4]),            // month 13
     19 => format!("{}-02-30T{time}{zone}", &date[..4]),            // February 30th
+    // Unicode look-alikes in timestamp position: none of them is an RFC 3339 character
+    21 => valid.replace('-', "\u{2212}"),                          // MINUS SIGN for every hyphen
+    22 => format!("{date}T{time}{}", zone.replace('-', "\u{2212}").replace('+', "\u{ff0b}").replace('Z', "\u{ff3a}")), // in the zone only
+    23 => valid.chars().map(|c| if c.is_ascii_digit() { char::from_u32(c as u32 - 0x30 + 0xff10).unwrap() } else { c }).collect(), // full-width digits
+    24 => valid.replace(':', "\u{ff1a}"),                          // full-width colon
+    25 => valid.replace('T', "\u{ff34}"),                          // full-width T
+    26 => valid.chars().map(|c| if c.is_ascii_digit() { char::from_u32(c as u32 - 0x30 + 0x660).unwrap() } else { c }).collect(), // Arabic-Indic digits
+    27 => valid.replace('-', "\u{2010}"),                          // HYPHEN
+    28 => format!("{}\u{200b}{}", &valid[..10], &valid[10..]),      // a zero-width space inside
     // (another separator character than 'T' is not in this list: RFC 3339 section 5.6 lets applications choose
     // one, and the `time` crate accepts any - that is leniency, a don't-care here)
     _ => format!("{date}T24:00:00{zone}"),
@@ -508,7 +517,17 @@ fn extras() -> BoxedStrategy<Vec<(String, Value)>> {
     1 => Just(json!("\"exp\":")),
     1 => stamp(),
   ];
-  let name = prop_oneof![3 => "[a-z]{1,5}".prop_map(|s: String| s), 2 => Just("iat".to_string()), 1 => Just("jti".to_string()), 1 => Just("renewed_from".to_string()), 1 => Just("Exp".to_string()), 1 => Just("exp ".to_string()), 1 => Just("NBF".to_string()), 1 => Just("expires".to_string()), 1 => Just("nbf\u{0}".to_string()), 1 => Just("ex".to_string())];
+  let name = prop_oneof![3 => "[a-z]{1,5}".prop_map(|s: String| s), 2 => Just("iat".to_string()), 1 => Just("jti".to_string()), 1 => Just("renewed_from".to_string()), 1 => Just("Exp".to_string()), 1 => Just("exp ".to_string()), 1 => Just("NBF".to_string()), 1 => Just("expires".to_string()), 1 => Just("nbf\u{0}".to_string()), 1 => Just("ex".to_string()),
+    // names that a normalising lookup would take for exp / nbf: zero-width characters, variation selectors, full-width letters
+    3 => (any::<u16>(), any::<bool>()).prop_map(|(i, which)| {
+      let base = if which { "exp" } else { "nbf" };
+      const FORMS: usize = 10;
+      match pick(i, FORMS) {
+        0 => format!("{base}\u{200b}"), 1 => format!("\u{2060}{base}"), 2 => format!("{}\u{200d}{}", &base[..1], &base[1..]), 3 => format!("{base}\u{fe0f}"),
+        4 => base.chars().map(|c| char::from_u32(c as u32 - 0x20 + 0xff00).unwrap()).collect(), 5 => format!("{base}\u{200c}"), 6 => format!("\u{feff}{base}"), 7 => format!("{base}\u{ad}"),
+        8 => crate::gen::confusable(base, 1).unwrap_or_else(|| base.to_uppercase()), _ => crate::gen::confusable(base, 0).unwrap_or_else(|| base.to_uppercase()),
+      }
+    })];
   // (an `iat` of any instant - also far in the future - says nothing about whether the token may be used)
   let far = prop_oneof![Just(serde_json::json!("2999-01-01T00:00:00Z")), Just(serde_json::json!("2035-06-01T12:00:00+02:00")), Just(serde_json::json!("1999-01-01T00:00:00Z")), Just(serde_json::json!(1893456000))];
   proptest::collection::vec((name, prop_oneof![3 => gen::json_leaf(), 2 => decoy, 2 => far]), 0..4).boxed()
